@@ -439,7 +439,18 @@ C20Count(t, r, c) ==
     LET n == Len(C20List(t, r, c))
     IN Falling(n, IF n < MaxHist THEN n ELSE MaxHist)
 
+(* standards that are distinct at the first frequency and indistinguishable *)
+(* at the second (value kind X): whatever solve answers, it must answer    *)
+(* consistently (return value, errno and callback agree)                   *)
+C20DegenerateRows(u) ==
+    {[name |-> Name("c20-degenerate", t, 1, 1, 0),
+      steps |-> <<[op |-> "life", t |-> t, r |-> 1, c |-> 1, nf |-> 2, form |-> "m",
+                   rel |-> "none", k |-> 0, leak |-> {}, pi |-> <<>>]>>
+                \o [j \in 1..3 |-> Plain(t, 1, 1, ReflP(10 + j, 1, "X"))]
+                \o <<Op("solve"), Op("addcal"), Apply(0)>>] : t \in Types}
+
 C20Table(u) ==
+    C20DegenerateRows(u) \cup
     UNION {{C20Row(x[1], x[2], x[3], idx) :
                idx \in {i \in 0..(C20Count(x[1], x[2], x[3]) - 1) :
                            i % Stride = (x[2] + 2 * x[3]) % Stride}} :
